@@ -10,7 +10,17 @@
    (E) why [phased] is needed (refutation) and what an orphan status is,
    (F) the hypotheses as boolean checks ([wfb], [phasedb], [calls_phasedb]),
        the suites' states are reachable states up to the verdict register,
-       and the window of the merged setReqStatus frame.
+       and the window of the merged setReqStatus frame,
+   (G) STREAMS: a transaction's calls carry a sequence id next to the
+       transaction id (Model2.v) — under the code as it is ([head]) the sequence
+       id is irrelevant, so everything above holds for all schedules of
+       streams; the bound and the release stated over transactions, refuted
+       for the variant that keys slots by the sequence id (seeded C02-7),
+   (H) the ends of a transaction the ENGINE itself produces (response
+       processed, answered early): every quota whose QuotaProcessorDec the
+       walk runs is released, whichever quota the transaction met first;
+       refuted for the variant whose Dec processor skips the walk that
+       follows an early answer (seeded C02-8).
 
    Schedules are arbitrary lists of events of the small-step machine of
    Model.v: any transaction thread or GC thread executes its next lock region
@@ -18,7 +28,7 @@
    forward ([ETick], monotone by construction).  [reachable c t0 s] = s is the
    state after some event list from the empty state at instant t0. *)
 From Coq Require Import List ZArith Bool Lia.
-From Verif Require Import C02.Model C02.Proofs C02.Proofs2 C02.Proofs3 C02.Proofs4 C02.Proofs5 C02.Proofs6 C02.Phased.
+From Verif Require Import C02.Model C02.Proofs C02.Proofs2 C02.Proofs3 C02.Proofs4 C02.Proofs5 C02.Proofs6 C02.Phased C02.Model2 C02.Proofs7.
 Import ListNotations.
 Open Scope Z_scope.
 
@@ -867,3 +877,266 @@ Theorem C02_gc_delete_while_recording_only_after_expiry : forall c t0 evs, wf c 
     e <= now s.
 Proof. exact gc_delete_while_recording. Qed.
 Print Assumptions C02_gc_delete_while_recording_only_after_expiry.
+
+
+(* ====================================================================== *)
+(* (G) streams: transaction id and sequence id                             *)
+
+(* Model2.v: every call of a transaction is made with a stream (r, sq): r =
+   APIStream.GetID(), sq = APIStream.GetSequenceID().  Different transactions
+   may carry the same sequence id (a client's retries carry the id of the first
+   attempt; parallel calls may be stamped alike), different calls of one
+   transaction may carry different ones (Stream.OnError builds a stream with
+   ID = SequenceID = transaction id, whatever the request carried).  The code
+   as it is keys every piece of bookkeeping by the transaction id: for EVERY
+   schedule of streams and from every state, the machine over streams is the
+   machine of Model.v on the schedule with the sequence ids erased. *)
+Theorem C02_sequence_id_irrelevant : forall c ks evs,
+  base (krun head c ks evs) = run c (base ks) (map erase evs).
+Proof. intros c ks evs. apply krun_head. Qed.
+Print Assumptions C02_sequence_id_irrelevant.
+
+(* The bound, over TRANSACTIONS: after every schedule of streams, the
+   transactions (distinct transaction ids) whose slot — looked up the way the
+   variant's code looks it up for the stream of the transaction's latest call —
+   is held, unexpired and not being released, number at most max. *)
+Definition C02_bound_transactions (v : variant) : Prop :=
+  forall c t0 evs q rs,
+    let ks := krun v c (kinit t0) evs in
+    NoDup rs -> (forall r, In r rs -> kinflight v ks q r) ->
+    Z.of_nat (length rs) <= Z.max 0 (cmax c q).
+
+(* It holds for the code as it is, whatever sequence ids the streams carry and
+   share (and the transactions in flight are pairwise different members of the
+   set) ... *)
+Theorem C02_bound_any_sequence_ids : C02_bound_transactions head.
+Proof. intros c t0 evs q rs ks ND H. apply (bound_transactions_head c t0 evs q rs ND H). Qed.
+Print Assumptions C02_bound_any_sequence_ids.
+
+Theorem C02_inflight_transactions_are_members : forall c t0 evs q rs,
+  let ks := krun head c (kinit t0) evs in
+  NoDup rs -> (forall r, In r rs -> kinflight head ks q r) ->
+  forall r, In r rs -> In r (map snd (members (base ks) q)).
+Proof. intros c t0 evs q rs ks ND H. apply (bound_transactions_head c t0 evs q rs ND H). Qed.
+Print Assumptions C02_inflight_transactions_are_members.
+
+(* ... and is FALSE for the variant that tracks slots under the sequence id
+   (seeded change C02-7): two transactions stamped with one sequence id, max 1,
+   both admitted and in flight. *)
+Definition sq_rows : list qrow := [(1, 1000000000, None)].
+Definition sq_cfg : config := mkcfg sq_rows.
+Definition sq_evs : list kevent :=
+  KCall 1 7 (OAllowed 0) :: repeat (KStep (Req 1)) 6 ++
+  KCall 2 7 (OAllowed 0) :: repeat (KStep (Req 2)) 6.
+
+Example C02_sq_wf : wf sq_cfg.
+Proof. apply C02_wfb_spec. vm_compute. reflexivity. Qed.
+
+Theorem C02_bound_keyed_by_sequence_id_refuted : ~ C02_bound_transactions seeded7.
+Proof.
+  intros H. specialize (H sq_cfg 0 sq_evs 0 [1; 2]). cbn zeta in H.
+  assert (X : Z.of_nat (length [1; 2]) <= Z.max 0 (cmax sq_cfg 0)).
+  { apply H.
+    - repeat constructor; cbn; intuition discriminate.
+    - intros r [<-|[<-|[]]]; unfold kinflight; exists 1010000000;
+        (split; [vm_compute; reflexivity|]); (split; [vm_compute; reflexivity|vm_compute; tauto]). }
+  vm_compute in X. apply X. reflexivity.
+Qed.
+Print Assumptions C02_bound_keyed_by_sequence_id_refuted.
+
+(* the same schedule under both variants: the code as it is refuses the second
+   transaction; the seeded variant admits both on one member *)
+Example C02_ex_shared_sequence_id :
+  let h := base (krun head sq_cfg (kinit 0) sq_evs) in
+  let x := base (krun seeded7 sq_cfg (kinit 0) sq_evs) in
+  verdict h 1 = Some true /\ verdict h 2 = Some false /\ members h 0 = [(1010000000, 1)] /\
+  verdict x 1 = Some true /\ verdict x 2 = Some true /\ members x 0 = [(1010000000, 7)].
+Proof. vm_compute. repeat split; reflexivity. Qed.
+
+(* Release, over streams: once a Dec of q — or a drop whose first quota is q —
+   that transaction r started on ANY stream (r, sq) is over, no status and no
+   member is left in q under the key of ANY stream (r, sq0) of that transaction,
+   whatever the other threads did in between.  In particular the proxy-error
+   drop (sq = r) of a retried call (sq0 = the first attempt's id) frees its
+   slot. *)
+Definition C02_release_any_stream (v : variant) : Prop :=
+  forall c t0 evs1 evs2 r sq o q, wf c ->
+    phased c t0 (map erase (evs1 ++ KCall r sq o :: evs2)) ->
+    let ks1 := krun v c (kinit t0) evs1 in
+    let ks2 := krun v c ks1 (KCall r sq o :: evs2) in
+    stk (base ks1) (Req r) = [] ->
+    (o = ODec q \/ (o = ODrop /\ firstq (base ks1) r = Some q)) ->
+    stk (base ks2) (Req r) = [] ->
+    forall sq0, status (base ks2) q (skey v r sq0) = None /\
+                forall e, ~ In (e, skey v r sq0) (members (base ks2) q).
+
+Theorem C02_release_any_stream_head : C02_release_any_stream head.
+Proof.
+  intros c t0 evs1 evs2 r sq o q WF P ks1 ks2 E O E2 sq0. rewrite skey_head.
+  unfold ks2, ks1 in *. rewrite !krun_head in *. cbn [kinit base map erase] in *.
+  rewrite map_app in P. cbn [map erase] in P.
+  exact (release_completes c t0 (map erase evs1) (map erase evs2) r o q WF P E O E2).
+Qed.
+Print Assumptions C02_release_any_stream_head.
+
+(* seeded C02-7: the retry (transaction 1, sequence id 7) is admitted under key
+   7; the proxy reports transaction 1 as failed; Dec looks key 1 up, finds
+   nothing, and the slot stays *)
+Definition sr_evs1 : list kevent :=
+  [KCall 1 7 (OGetQ 0); KStep (Req 1); KCall 1 7 (OAllowed 0)] ++ repeat (KStep (Req 1)) 6.
+Definition sr_evs2 : list kevent := repeat (KStep (Req 1)) 6.
+
+Theorem C02_release_keyed_by_sequence_id_refuted : ~ C02_release_any_stream seeded7.
+Proof.
+  intros H. specialize (H sq_cfg 0 sr_evs1 sr_evs2 1 1 ODrop 0 C02_sq_wf).
+  cbn zeta in H.
+  assert (X : status (base (krun seeded7 sq_cfg (krun seeded7 sq_cfg (kinit 0) sr_evs1) (KCall 1 1 ODrop :: sr_evs2))) 0
+                (skey seeded7 1 7) = None).
+  { apply H.
+    - unfold phased. cbn. intuition discriminate.
+    - vm_compute. reflexivity.
+    - right. split; [reflexivity|vm_compute; reflexivity].
+    - vm_compute. reflexivity. }
+  vm_compute in X. discriminate X.
+Qed.
+Print Assumptions C02_release_keyed_by_sequence_id_refuted.
+
+(* suite "res2" (operations with their streams) evaluates, under [head], the
+   function of suite "res" on the case with the sequence ids erased: every
+   statement about the states of suite "res" (C02_suite_res_states_reachable,
+   C02_bound_suite_res) is a statement about what the harness compares *)
+Theorem C02_suite_res2_is_res : forall k, run_res2h k = run_res (erase_case_res k).
+Proof. exact run_res2_head. Qed.
+Print Assumptions C02_suite_res2_is_res.
+
+(* suite "eng2": the operations of an ExecuteFlow call are run by [run_ops] of
+   Model.v, and every state the suite goes through is, up to the verdict
+   register, a reachable state *)
+Theorem C02_suite_eng2_ops : forall c os ks r sq,
+  base (fst (krun_ops head c ks r sq os)) = fst (run_ops c (base ks) r os) /\
+  snd (krun_ops head c ks r sq os) = snd (run_ops c (base ks) r os).
+Proof. exact krun_ops_head. Qed.
+Print Assumptions C02_suite_eng2_ops.
+
+Theorem C02_suite_eng2_states_reachable : forall rows es,
+  exists s2, sbv (base (eevs2_state head (mkcfg rows) (kinit 0) es)) s2 /\ reachable (mkcfg rows) 0 s2.
+Proof.
+  intros rows es. apply (eevs2_reachable _ 0 es (kinit 0) (init 0)); [apply sbv_refl|].
+  exists []. reflexivity.
+Qed.
+Print Assumptions C02_suite_eng2_states_reachable.
+
+(* ====================================================================== *)
+(* (H) the ends of a transaction the engine itself produces                *)
+
+(* A quota id outside the rows of the configuration is a quota of another
+   strategy (a rate limit): its processors only look it up ([PTouch]), which
+   makes it the FIRST quota of the transaction when it comes first — then
+   OnRequestDrop releases nothing of the concurrency side.
+
+   Answered early: the engine calls OnRequestDrop, walks the response flows
+   (the QuotaProcessorDec of every quota in [qs], in any order, each GetQuota +
+   Dec) and finishes.  Run by an idle transaction from ANY state — whatever it
+   holds, whichever quota it met first: it ends idle and without a status in
+   every quota of [qs]; no other transaction's status changes.  (No member
+   without status exists in a phased schedule: C02_release_once.)  Quota ids
+   are bounded by 48 only because the suites' fuel is 200. *)
+Definition end_early (qs : list Z) : list pev2 := POld PGen :: decs qs ++ [POld PFinish].
+Definition end_response (qs : list Z) : list pev2 := decs qs ++ [POld PFinish].
+
+Definition C02_early_answer_frees_every_slot (v : variant) : Prop :=
+  forall c, wf c -> forall s r qs,
+    stk s (Req r) = [] ->
+    (forall q, In q qs -> q <= 48) -> (forall q1, firstq s r = Some q1 -> q1 <= 48) ->
+    let s' := fst (run_ops c s r (ops_of_trace v false (end_early qs))) in
+    stk s' (Req r) = [] /\
+    (forall q, In q qs -> status s' q r = None) /\
+    (forall q r', r' <> r -> status s' q r' = status s q r').
+
+Theorem C02_early_answer_frees_every_slot_head : C02_early_answer_frees_every_slot head.
+Proof.
+  intros c WF s r qs E Q F. cbn zeta. unfold end_early. cbn [ops_of_trace].
+  rewrite ops_of_decs_head. cbn [ops_of_trace ops_of_pev app].
+  destruct (release_ops c WF (ODrop :: flat_map (fun q => [OGetQ q; ODec q]) qs ++ [OFinish]) s r E)
+    as [A [_ [B D]]].
+  - cbn [forallb rel_op andb]. apply rel_flat. reflexivity.
+  - intros o [<-|H]; [cbn; lia|]. apply (quota_flat qs [OFinish] o Q); [|exact H].
+    intros o' [<-|[]]. cbn. lia.
+  - exact F.
+  - cbn zeta in *. split; [exact A|]. split; [|exact D].
+    intros q H. apply B. right. apply dec_in_flat. exact H.
+Qed.
+Print Assumptions C02_early_answer_frees_every_slot_head.
+
+(* the response walk alone (response processed) *)
+Theorem C02_response_frees_every_slot : forall c, wf c -> forall s r qs,
+  stk s (Req r) = [] ->
+  (forall q, In q qs -> q <= 48) -> (forall q1, firstq s r = Some q1 -> q1 <= 48) ->
+  let s' := fst (run_ops c s r (ops_of_trace head false (end_response qs))) in
+  stk s' (Req r) = [] /\
+  (forall q, In q qs -> status s' q r = None) /\
+  (forall q r', r' <> r -> status s' q r' = status s q r').
+Proof.
+  intros c WF s r qs E Q F. cbn zeta. unfold end_response.
+  rewrite ops_of_decs_head. cbn [ops_of_trace ops_of_pev app].
+  destruct (release_ops c WF (flat_map (fun q => [OGetQ q; ODec q]) qs ++ [OFinish]) s r E)
+    as [A [_ [B D]]].
+  - apply rel_flat. reflexivity.
+  - intros o H. apply (quota_flat qs [OFinish] o Q); [|exact H].
+    intros o' [<-|[]]. cbn. lia.
+  - exact F.
+  - cbn zeta in *. split; [exact A|]. split; [|exact D].
+    intros q H. apply B. apply dec_in_flat. exact H.
+Qed.
+Print Assumptions C02_response_frees_every_slot.
+
+(* seeded C02-8: the QuotaProcessorDec does nothing in the walk that follows an
+   early answer.  Rate limiter (quota id 1, outside the rows) first, then the
+   concurrency limiter on quota 0; transaction 1 is admitted and answered
+   early: the drop releases the rate quota only, the walk skips quota 0 — its
+   status (and slot) stay until the expiry. *)
+Definition ea_rows : list qrow := [(1, 2000000000, None)].
+Definition ea_cfg : config := mkcfg ea_rows.
+Definition ea_state : state := fst (run_ops ea_cfg (init 0) 1 [OGetQ 1; OGetQ 0; OInc 0; OAllowed 0]).
+
+Example C02_ea_wf : wf ea_cfg.
+Proof. apply C02_wfb_spec. vm_compute. reflexivity. Qed.
+
+Theorem C02_early_answer_dec_skipped_refuted : ~ C02_early_answer_frees_every_slot seeded8.
+Proof.
+  intros H. destruct (H ea_cfg C02_ea_wf ea_state 1 [0]) as [_ [X _]].
+  - vm_compute. reflexivity.
+  - intros q [<-|[]]. lia.
+  - intros q1 Fq. vm_compute in Fq. inversion Fq. lia.
+  - specialize (X 0 (or_introl eq_refl)). vm_compute in X. discriminate X.
+Qed.
+Print Assumptions C02_early_answer_dec_skipped_refuted.
+
+(* the hypotheses of the positive theorem hold in that (reachable) state, and
+   the two variants side by side on the engine-level history the harness
+   replays: transaction 0 admitted and answered early, then a fresh probe *)
+Definition ea_script : list eev2 :=
+  [Ev2Txn 0 0 [PTouch 1; POld (PLim 0); POld PGen; POld (PDec 0); POld PFinish];
+   Ev2Txn 100 100 [PTouch 1; POld (PLim 0)]].
+
+Example C02_ex_early_answer_after_rate_limiter :
+  stk ea_state (Req 1) = [] /\ firstq ea_state 1 = Some 1 /\ status ea_state 0 1 = Some 2010000000 /\
+  members ea_state 0 = [(2010000000, 1)] /\
+  members (fst (run_ops ea_cfg ea_state 1 (ops_of_trace head false (end_early [0])))) 0 = [] /\
+  members (fst (run_ops ea_cfg ea_state 1 (ops_of_trace seeded8 false (end_early [0])))) 0 = [(2010000000, 1)] /\
+  run_eevs2 head ea_rows ea_cfg (kinit 0) ea_script = [([1], [0]); ([1], [1])] /\
+  run_eevs2 seeded8 ea_rows ea_cfg (kinit 0) ea_script = [([1], [1]); ([0], [1])].
+Proof. vm_compute. repeat split; reflexivity. Qed.
+
+(* a retried call through the engine: transaction 1 carries the sequence id of
+   transaction 0 while that one is still in flight (max 1), then both fail *)
+Definition sq_script : list eev2 :=
+  [Ev2Txn 0 0 [POld (PLim 0)]; Ev2Txn 1 0 [POld (PLim 0)]; Ev2Err 0;
+   Ev2Txn 2 0 [POld (PLim 0)]; Ev2Err 2; Ev2Txn 100 100 [POld (PLim 0)]].
+
+Example C02_ex_retried_call :
+  run_eevs2 head sq_rows sq_cfg (kinit 0) sq_script =
+    [([1], [1]); ([0], [1]); ([], [0]); ([1], [1]); ([], [0]); ([1], [1])] /\
+  run_eevs2 seeded7 sq_rows sq_cfg (kinit 0) sq_script =
+    [([1], [1]); ([1], [1]); ([], [0]); ([1], [1]); ([], [1]); ([0], [1])].
+Proof. vm_compute. repeat split; reflexivity. Qed.
